@@ -278,6 +278,30 @@ pub fn run(ctx: &Ctx) -> i32 {
             }
         }
     });
+    // 3d. every byte value at several positions of longer sections (block-wise conversion paths):
+    //     sections of 15..48 bytes of filler with one special byte
+    ctx.par(256, |c, w| {
+        let b = c as u8;
+        w.label(|| format!("long sections special byte {}", b));
+        for eci in sets {
+            for len in [15usize, 16, 17, 31, 32, 33, 48] {
+                for pos in [0usize, 7, 15, 16, len - 1] {
+                    if pos >= len {
+                        continue;
+                    }
+                    for fill in [b'a', 0xE9u8] {
+                        if fill >= 0x80 && matches!(eci, Some(26) | Some(27)) {
+                            continue;
+                        }
+                        let mut v = vec![fill; len];
+                        v[pos] = b;
+                        let carrier = if fill < 0x80 { Carrier::Ascii } else { Carrier::Base256 };
+                        w.check(len as u64, || cdesc(eci, &v, carrier), |st| eval_charset(eci, &v, carrier, st));
+                    }
+                }
+            }
+        }
+    });
     // 3c. designators directly behind each other (no data between them), in both numeric orders,
     //     at the start of the stream and after a first segment
     ctx.par(256, |c, w| {
@@ -326,7 +350,7 @@ pub fn run(ctx: &Ctx) -> i32 {
         "distinct_nontrivial": ctx.counter("nontrivial"),
         "rule": format!("write side: all 1,000,000 ECI numbers through encode_eci: codewords after 241 equal the closed formulas of ISO/IEC 16022 Table 6, are read back (hook eci_spans) as the same number, decode_data reports ECICode; \
 read side: every designator sequence of the length its first codeword demands (127 + 64*256 + 16*65536) and every truncation: accepted with the right number iff well formed; character sets: ECI none/3/11/13/26/27 x all 256 bytes x ASCII(upper shift) and Base256 carriage, \
-all byte pairs in Base256 (one fifth in ASCII), two segments [ECI e1] a [ECI e2] b for all character-set pairs and bytes a, b, designators directly behind each other [ECI e1][ECI e2] b in both numeric orders (bare and after a first segment), all 16.7 M 3-byte sequences and all sequences of length 3..4 over a 19-value boundary alphabet under ECI 26{}: decode_str equals ISO 8859-1/-9/-11 by rule resp. passes exactly the RFC 3629 / 7-bit sequences, CharsetError elsewhere. All cases distinct; \
+all byte pairs in Base256 (one fifth in ASCII), sections of 15..48 filler bytes with every byte value at five positions, two segments [ECI e1] a [ECI e2] b for all character-set pairs and bytes a, b, designators directly behind each other [ECI e1][ECI e2] b in both numeric orders (bare and after a first segment), all 16.7 M 3-byte sequences and all sequences of length 3..4 over a 19-value boundary alphabet under ECI 26{}: decode_str equals ISO 8859-1/-9/-11 by rule resp. passes exactly the RFC 3629 / 7-bit sequences, CharsetError elsewhere. All cases distinct; \
 non-trivial = number round trip, malformed designator rejected, or defined character mapped.", if ctx.tier == Tier::Thorough { " (thorough: boundary alphabet also at length 5)" } else { "" }),
         "exhaustive": true,
         "wellformed_designators_beyond_999999_accepted_not_judged": ctx.counter("wellformed_beyond_999999"),
